@@ -457,6 +457,45 @@ func init() {
 		}
 		c.Outcome(fmt.Sprintf("ct-response status=%d", ex.Rec.Status))
 	}
+	// ---- an error that follows a google.api.HttpBody message: the error body is the JSON status,
+	// and must be labelled as such (not with the content type the HttpBody message carried)
+	errAfterBody := func(c *xplor.Ctx) {
+		tp := []vanguard.Protocol{vanguard.ProtocolGRPC, vanguard.ProtocolGRPCWeb, vanguard.ProtocolConnect}[c.Free("target", 3)]
+		stream := c.Free("method", 2) == 1
+		c.Attr("target", tp.String())
+		be := &world.Backend{Respond: func(b *world.Backend, r *http.Request) *world.Reply {
+			return world.EchoReply(b.Parsed, [][]byte{Enc(b.Parsed.Codec, MkMsg(`{"name":"f","body":{"contentType":"image/png","data":"iVBORw=="}}`))}, "", &wire.End{Code: 5, Message: "gone"})
+		}}
+		tc, err := world.Build(world.Config{Protocols: []vanguard.Protocol{tp}, Codecs: []string{"proto"}, MaxMsg: 1 << 20}, be)
+		if err != nil {
+			c.Fail("harness.setup", "%v", err)
+			return
+		}
+		spec := c07REST("POST", "/v1/blob/f", "image/png", []byte{1, 2})
+		if stream {
+			if tp == vanguard.ProtocolConnect {
+				c.Skip()
+				return
+			}
+			spec = c07REST("GET", "/v1/down/f", "", nil)
+		}
+		ex, err := world.Do(tc, spec)
+		if err != nil {
+			c.Fail("harness.setup", "%v", err)
+			return
+		}
+		c.Nontrivial(fmt.Sprintf("error-after-httpbody|%s|%v", tp, stream))
+		if ex.Panic != nil {
+			c.Fail("C07.panic", "%s\n%s", ex.Panic.Value, stackTop(ex.Panic.Stack))
+			return
+		}
+		body := ex.Rec.BodyBytes.Bytes()
+		ct := ex.Rec.Snapshot.Get("Content-Type")
+		if ex.Rec.Status >= 400 && json.Valid(body) && len(body) > 0 && !strings.HasPrefix(ct, "application/json") {
+			c.Fail("C07.error-body-mislabelled", "the backend sent an HttpBody message (image/png) and then failed: the client got HTTP %d with the JSON status %s under Content-Type %q", ex.Rec.Status, short(string(body)), ct)
+		}
+		c.Outcome(fmt.Sprintf("error-after-httpbody status=%d", ex.Rec.Status))
+	}
 	// ---- RPC -> REST -> RPC through two chained transcoders
 	chainMsgs := map[string][]string{
 		"Unary":  msgAlphabet,
@@ -590,6 +629,7 @@ func init() {
 			{Name: "ill-typed", Fn: illTyped, QuickBound: 0, ThoroughBound: 0},
 			{Name: "ill-formed-bodies", Fn: illBody, QuickBound: 0, ThoroughBound: 0},
 			{Name: "content-type-from-message", Fn: ctInjection, QuickBound: 0, ThoroughBound: 0},
+			{Name: "error-after-httpbody", Fn: errAfterBody, QuickBound: 0, ThoroughBound: 0},
 			{Name: "rpc-rest-rpc", Fn: chain, QuickBound: 0, ThoroughBound: 0},
 		},
 		MinOutcomes: 5,
